@@ -547,7 +547,7 @@ class ChainEnv:
 
 # ------------------------------------------------------------------ dispatch
 def _strs(node):
-    if isinstance(node, ast.List) and all(isinstance(e, ast.Constant) and
+    if isinstance(node, (ast.List, ast.Tuple, ast.Set)) and all(isinstance(e, ast.Constant) and
                                           isinstance(e.value, str) for e in node.elts):
         return [e.value for e in node.elts]
     return None
@@ -694,8 +694,10 @@ def _mix_info(fn, body, resvar, src):
         by_id = True       # slot of element id <- value of that element
     else:
         raise TranslateError(f'{fn.name}: unexpected mix assignment {target}')
-    if not (isinstance(assigns[0].value, ast.Name) and
-            assigns[0].value.id == calls_target_name(loop, calls[0])):
+    val = assigns[0].value
+    # the recursive result, stored directly or through the one name it was bound to
+    if not (val is calls[0] or (isinstance(val, ast.Name) and
+                                val.id == calls_target_name(loop, calls[0]))):
         raise TranslateError(f'{fn.name}: mix assignment does not store the recursive result')
     return {'passes_mode': kws.get('mode') == 'mode', 'keywords': sorted(kws),
             'assignment': ast.unparse(assigns[0]), 'by_id': by_id}
